@@ -25,24 +25,32 @@ Section Spec.
   Variable unmarshal : list N -> option (list N).
   Notation ptail p := (is_tail (p_marker p) (p_payload p)).
 
-  (* clause 1 for one sample x, against the packets pushed: x is made of a
-     non-empty run of pushed packets with consecutive sequence numbers, the
-     first a partition head; its bytes are their depacketized payloads in
-     order; its timestamp is the head's.  The timestamp part is stated in the
-     form the code satisfies: all packets but the last share the head's
-     timestamp (and are not partition tails), and the last shares it unless it
-     is a partition tail; "all share one timestamp" is one_timestamp below. *)
-  Definition sample_wf (pushed : list packet) (x : sample) : Prop :=
+  (* clause 1 for one sample x, against the packets pushed, in two parts.
+     sample_run: x is made of a non-empty run of pushed packets with consecutive
+     sequence numbers, the first a partition head, and its bytes are their
+     depacketized payloads in order. *)
+  Definition sample_run (pushed : list packet) (x : sample) : Prop :=
     exists h hp rest ds,
       h < 65536 /\
       s_pkts x = hp :: rest /\
       Forall2 (fun k p => In p pushed /\ p_seq p = k) (keys_from h (List.length (hp :: rest))) (hp :: rest) /\
       is_head (p_payload hp) = true /\
       map (fun p => unmarshal (p_payload p)) (hp :: rest) = map Some ds /\
-      s_data x = concat ds /\
+      s_data x = concat ds.
+
+  (* sample_ts: the timestamp part, in the form the code satisfies: the sample's
+     timestamp is the head packet's; all packets but the last share it (and are
+     not partition tails), and the last shares it unless it is a partition tail;
+     "all share one timestamp" is one_timestamp below. *)
+  Definition sample_ts (x : sample) : Prop :=
+    exists hp rest,
+      s_pkts x = hp :: rest /\
       s_ts x = p_ts hp /\
       (forall p, In p (removelast (hp :: rest)) -> p_ts p = p_ts hp /\ ptail p = false) /\
       (ptail (last rest hp) = false -> p_ts (last rest hp) = p_ts hp).
+
+  Definition sample_wf (pushed : list packet) (x : sample) : Prop :=
+    sample_run pushed x /\ sample_ts x.
 End Spec.
 
 Definition one_timestamp (x : sample) : Prop :=
